@@ -97,7 +97,7 @@ def op_values(op):
             out.append(x)
         elif isinstance(x, dict):
             for v in x.values():
-                walk(v)
+                walk(v)  # (also the text of an {"o": text} object value)
         elif isinstance(x, (list, tuple)):
             for v in x:
                 walk(v)
@@ -139,6 +139,11 @@ class WsgiStream(Stream):
         [["set", "Content-Length", "3"]],
         [["add", "X-A", "v\r\nInjected: 1"]],
         [["set", "X-A", "ok"], ["set", "X-A", "bad\nvalue"]],
+        # non-str values: an object whose str() carries CR/LF (a header datastructure, any object with
+        # __str__) must be refused by every mutator exactly like text
+        [["add", "X-O", {"o": "v\r\nSet-Cookie: admin=1"}], ["set", "X-P", {"o": "fine"}]],
+        [["setitem", "WWW-Authenticate", {"o": "Basic realm=\"x\r\nInjected: 1\""}], ["setlist", "X-L", ["1", {"o": "2\n"}]]],
+        [["setdefault", "X-D", {"o": "d\n"}], ["setidx", 0, "X-I", {"o": "i\r"}], ["setlistdefault", "X-M", [{"o": "a\r"}, "b"]]],
         [["set", "Location", "/a b"]],
         [["set", "Location", "http://example.com/é?q=ü"], ["add", "X-B", 5]],
         [["add", "location", "rel/../x"], ["add", "Content-Location", "/ä"]],
@@ -470,7 +475,16 @@ class HistoryStream(Stream):
     _cache: dict = {}
     BODIES = [["L", [["t", "ab"], ["b", ""], ["t", "é"]]], ["C", [["b", "6162"], ["t", "é"], ["b", "63"]]], ["I", [["b", "61"], ["b", "6263"]]], ["S", [["t", "héllo"]]], ["T", [["b", "78"], ["t", "y"]]], ["B", [["b", "00ff41"]]], ["C", []], ["N", []], ["C", [["b", "6162"], ["b", "63"]]], ["L", [["b", "61"], ["b", ""], ["b", "6263"]]]]
     BYTES_BODIES = [b for b in BODIES if all(i[0] == "b" for i in b[1])]
-    EVS = [["cb"], ["getdata"], ["makeseq"], ["freeze"], ["setdata", "787980"], ["close"], ["wsgi", "GET"], ["wsgi", "HEAD"], ["take", 1], ["take", 99], ["iterclose"]]
+    EVS = [["cb"], ["getdata"], ["makeseq"], ["freeze"], ["setdata", "787980"], ["close"], ["wsgi", "GET"], ["wsgi", "HEAD"], ["take", 1], ["take", 99], ["iterclose"], ["swrite", "7a"]]
+    # response.stream writes interleaved with everything that replaces / buffers the body
+    WRITES = [["swrite", "7a"], ["swrite", "7b7c"], ["setdata", "787980"], ["makeseq"], ["getdata"], ["freeze"]]
+
+    @staticmethod
+    def admissible(evs):
+        """a `response.stream.write` after get_wsgi_response would append to the very list object a
+        held iterator walks (CPython list-iterator semantics, outside the model)"""
+        names = [e[0] for e in evs]
+        return not ("swrite" in names and "wsgi" in names and names.index("wsgi") < len(names) - 1 - names[::-1].index("swrite"))
     corpus = [
         # F05b (repaired by 41b0631): freeze() used to consume a closable iterator without taking over its close
         {"status": ["i", 200], "dp": 0, "body": ["C", [["b", "6162"]]], "implicit": 1, "auto": 1, "hinit": [], "evs": [["cb"], ["freeze"], ["wsgi", "GET"], ["take", 99], ["iterclose"]]},
@@ -483,8 +497,19 @@ class HistoryStream(Stream):
         return {"status": status, "dp": dp, "body": body, "implicit": implicit, "auto": auto, "hinit": [list(p) for p in hinit], "evs": [list(e) for e in evs]}
 
     def cases(self, rng, tier):
+        for c in self.cases0(rng, tier):
+            if self.admissible(c["evs"]):
+                yield c
+
+    def cases0(self, rng, tier):
         quick = tier == "quick"
         core = self.BODIES[:4]
+        for body in (self.BODIES[0], self.BODIES[1], self.BODIES[3], self.BODIES[7]):
+            for auto in (1, 0):
+                for n in (1, 2, 3):
+                    for pre in itertools.product(self.WRITES, repeat=n):
+                        if any(e[0] == "swrite" for e in pre):
+                            yield self.mk(["i", 200], 0, body, list(pre) + [["wsgi", "GET"], ["take", 99]], auto=auto)
         for body in core:
             for n in (0, 1, 2, 3):
                 for evs in itertools.product(self.EVS, repeat=n):
@@ -560,6 +585,9 @@ class HistoryStream(Stream):
                 elif n == "setdata":
                     r.set_data(bytes.fromhex(ev[1]))
                     res = "~"
+                elif n == "swrite":
+                    r.stream.write(bytes.fromhex(ev[1]))
+                    res = "~"
                 elif n == "close":
                     r.close()
                     res = "~"
@@ -627,6 +655,8 @@ class HistoryStream(Stream):
                 evs.append("freeze," + hs(sha1(twin[i]).hexdigest()))
             elif n == "setdata":
                 evs.append("setdata," + (ev[1] or "-"))
+            elif n == "swrite":
+                evs.append("swrite," + (ev[1] or "-"))
             elif n == "wsgi":
                 evs.append(f"wsgi,{ev[1]},~,~")
             elif n == "take":
@@ -654,6 +684,11 @@ class HistoryStream(Stream):
                 rest = [bytes.fromhex(ev[1])]
                 stream = False
                 shared = False
+            elif n == "swrite":
+                if not (stream and (case["dp"] or not case["implicit"])):
+                    rest = rest + [bytes.fromhex(ev[1])]
+                    stream = False
+                    shared = False
             elif n in ("getdata", "makeseq"):
                 if stream and not (n == "getdata" and (case["dp"] or not case["implicit"])):
                     stream = False
@@ -705,12 +740,15 @@ class HistoryStream(Stream):
             # the whole body was delivered: a `take 99` right after, before anything else consumed,
             # replaced or closed what the server holds
             full = ["take", 99] in after and not any(e[0] in ("getdata", "makeseq", "freeze", "setdata", "iterclose") for e in after[: after.index(["take", 99])])
+            full = full and "swrite" not in [e[0] for e in after]
             preset = any(k.lower() == "content-length" for k, _ in case["hinit"])
             # with automatically_set_content_length off, set_data() does not touch an earlier
             # Content-Length: the application took the header over, nothing here was computed
             # for the body that is sent
             if not case["auto"] and "setdata" in evs[:last]:
-                preset = True
+                i_sd = last - 1 - evs[:last][::-1].index("setdata")
+                if not any(e in ("swrite", "freeze") for e in evs[i_sd + 1 : last]):
+                    preset = True
             if cl and not preset and not bodyless and full and evs.count("wsgi") == 1:
                 if len(cl) != 1 or not cl[0].isdigit() or int(cl[0]) != len(got):
                     return f"computed Content-Length {cl} but {len(got)} body bytes were produced"
@@ -859,8 +897,8 @@ class FromAppStream(Stream):
 
 CHECK = Check(
     prop="C05",
-    gen=["Containers", "Views", "ResponseProps", "CacheSetTable", "Response", "Http", "PyFns_Internal", "PyFns_Range", "PyFns_Response", "PyFns_Http", "PyFns_HttpDict", "UrlTables"],
-    modules=["WzVerif.Props.C05", "WzVerif.Props.C05T"],
+    gen=["Containers", "Views", "ResponseProps", "CacheSetTable", "PyFns_Headers", "PyFns_HeaderSet", "Response", "Http", "PyFns_Internal", "PyFns_Range", "PyFns_Response", "PyFns_Http", "PyFns_HttpDict", "UrlTables"],
+    modules=["WzVerif.Props.C05", "WzVerif.Props.C05T", "WzVerif.Props.C08T"],
     streams=[WsgiStream(), HistoryStream(), FromAppStream()],
     assumptions=[
         "round 3 (Props/C05T): Response._clean_status (str and int arguments) and the iterable choice of Response.get_app_iter are regenerated from the source by tools/py2lean.py (Gen/PyFns_Response.lean) on every run and proved equal to the hand model (cleanStatus with HTTP_STATUS_CODES = the regenerated table, bodyless / getAppIter) for all inputs; int(code_str) is C06's hand model Http.pyInt on both sides",
@@ -869,7 +907,7 @@ CHECK = Check(
         "the close model is an effect log (which close actions the returned iterable's close() runs); generator finalisation is observed through inspect.getgeneratorstate",
         "known finding F05: Response(direct_passthrough=True) returns the raw iterable for non-bodyless responses, call_on_close callbacks never run",
         "F05b (Response.freeze() dropped the close of a consumed closable iterable) is repaired by 41b0631: freeze is a quiet event of close_exactly_once_history, the former failing input is a corpus regression case (freeze_keeps_wrapped_close_regression)",
-        "histories on one response object (Model.Response.nextEv: call_on_close before/after get_wsgi_response, get_data, make_sequence, freeze, set_data, close()/with, the server pulling any prefix and closing; implicit_sequence_conversion / automatically_set_content_length on or off) are tied to the code by stream response-history; generate_etag (SHA-1) is opaque (the harness supplies the digest); generator and file-wrapper bodies are exercised by stream wsgi-response only (their close is observed through CPython finalisation, not counted)",
+        "histories on one response object (Model.Response.nextEv: call_on_close before/after get_wsgi_response, get_data, make_sequence, freeze, set_data, response.stream.write (only before get_wsgi_response: a write afterwards appends to the list a held iterator walks - CPython list-iterator semantics, outside the model), close()/with, the server pulling any prefix and closing; implicit_sequence_conversion / automatically_set_content_length on or off) are tied to the code by stream response-history; generate_etag (SHA-1) is opaque (the harness supplies the digest); generator and file-wrapper bodies are exercised by stream wsgi-response only (their close is observed through CPython finalisation, not counted)",
         "Response.from_app / force_type(app, environ) (test.run_wsgi_app): the outer body is modelled as a closable stream whose close is the inner ClosingIterator's (driver fromapp, stream from-app); Response.__call__ is get_wsgi_response + start_response (no state of its own)",
         "int(code_str) in _clean_status is C06's Http.pyInt (white space, sign, '_' separators; exact on latin-1 text)",
     ],
